@@ -308,3 +308,120 @@ func ruleAnnotationMutationsLocked(r *Run) {
 	}
 	r.check(nW >= 8, "annotation:store-writes", fmt.Sprintf("%d store writes and %d list reads before a write checked", nW, nR), "fewer store writes than confirmed by reading (8): rule needs review", "-")
 }
+
+// ---------------------------------------------------------------------------------------------
+// R3.15 / R8.14 — a version is marked as "mapping loaded" only after its log, and the logs of its
+// ancestors, were replayed.  getMapping takes the mark as licence to skip the loader, so a mark
+// that precedes the replay lets a second request answer from a half-built map (and a failed
+// replay leaves the mark behind).
+
+func init() {
+	reg := func(id, prop string) {
+		register(ruleDef{ID: id, Prop: prop, Tier: "quick", Floor: 2,
+			Title: "the loaded-mark of a label mapping follows the replay: in every labelmap function that replays a mutation log (labels.StreamLog) and records versions in a map of its receiver, no path leads from a mark to a replay inside the same loop iteration, and when marks and replays share a loop the loop walks the ancestry from the oldest version toward the queried one (descending index), so that a marked version always has its own log and all its ancestors' logs replayed",
+			Fn:    ruleMarkAfterReplay})
+	}
+	reg("R3.15", "C03")
+	reg("R8.14", "C08")
+}
+
+func ruleMarkAfterReplay(r *Run) {
+	w := r.W
+	loaders := 0
+	for _, f := range w.RepoFuncs {
+		if relPkg(pkgPathOf(f)) != "datatype/labelmap" || len(f.Blocks) == 0 || f.Parent() != nil || strings.HasSuffix(w.fposFile(f), "_test.go") {
+			continue
+		}
+		var replays []ssa.Instruction
+		for _, c := range calls(f) {
+			if callee := staticCallee(c); callee != nil && callee.Name() == "StreamLog" && relPkg(pkgPathOf(callee)) == "datatype/common/labels" {
+				replays = append(replays, c)
+			}
+		}
+		if len(replays) == 0 {
+			continue
+		}
+		isReplay := func(x ssa.Instruction) bool {
+			for _, p := range replays {
+				if p == x {
+					return true
+				}
+			}
+			return false
+		}
+		k := 0
+		for _, b := range f.Blocks {
+			for _, in := range b.Instrs {
+				mu, ok := in.(*ssa.MapUpdate)
+				if !ok {
+					continue
+				}
+				fa := mapFieldAddr(mu.Map)
+				if fa == nil {
+					continue
+				}
+				name, _, _ := fieldName(fa)
+				k++
+				construct := fmt.Sprintf("%s:mark#%d:%s", fname(f), k, name)
+				if findPath(f, mu, nil, isReplay, allEdges) == nil {
+					r.check(true, construct, "no replay is reachable from the mark: every replay of the function precedes it", "", w.pos(mu.Pos()))
+					continue
+				}
+				h, set, _ := innermostLoop(f, b)
+				sameLoop := set != nil
+				if sameLoop {
+					for _, p := range replays {
+						if !set[p.Block()] {
+							sameLoop = false
+						}
+					}
+				}
+				if !sameLoop {
+					r.check(false, construct, "", "a replay of the mutation log can follow this mark outside a common loop: the version is marked as loaded before its log was replayed, so getMapping's shortcut hands out a half-built mapping", w.pos(mu.Pos()))
+					continue
+				}
+				inHeader := func(x ssa.Instruction) bool { return x.Block() == h }
+				within := findPath(f, mu, inHeader, isReplay, allEdges)
+				if within != nil {
+					r.check(false, construct, "", "inside one loop iteration the version is marked as loaded before its mutation log is replayed: a request arriving during the replay takes getMapping's already-loaded shortcut and answers from a half-built mapping, and a failed replay leaves the mark behind", w.pos(mu.Pos()))
+					continue
+				}
+				// the loop walks the ancestry from the oldest unloaded version toward the queried one
+				desc := false
+				for d := range dataDeps(mu.Key) {
+					ia, ok := d.(*ssa.IndexAddr)
+					if !ok {
+						continue
+					}
+					if phi, ok := stripConv(ia.Index).(*ssa.Phi); ok && phi.Block() == h {
+						for _, e := range phi.Edges {
+							if bo, ok := e.(*ssa.BinOp); ok && bo.X == ssa.Value(phi) {
+								if c, ok := bo.Y.(*ssa.Const); ok && c.Value != nil {
+									if (bo.Op.String() == "-" && c.Int64() > 0) || (bo.Op.String() == "+" && c.Int64() < 0) {
+										desc = true
+									}
+								}
+							}
+						}
+					}
+				}
+				r.check(desc, construct, "replay precedes the mark in each iteration and the loop index over the ancestry descends (oldest unloaded version first)",
+					"marks and replays share a loop that does not walk the ancestry with a descending index: the queried version is marked before its ancestors' logs were replayed, so a request arriving meanwhile sees it as loaded and misses the ancestors' mappings", w.pos(mu.Pos()))
+			}
+		}
+		if k >= 1 {
+			loaders++ // a function that replays a log without recording anything (a history read-out) is not a loader
+		}
+	}
+	r.check(loaders >= 1, "labelmap:log-replaying-loaders", fmt.Sprintf("%d functions replay a mutation log and mark versions", loaders), "no function that calls labels.StreamLog and records versions in a map of its receiver found: rule needs review", "-")
+}
+
+// mapFieldAddr: the FieldAddr a map operand was loaded from (nil when the map is not a struct field).
+func mapFieldAddr(v ssa.Value) *ssa.FieldAddr {
+	if u, ok := v.(*ssa.UnOp); ok {
+		if fa, ok := u.X.(*ssa.FieldAddr); ok {
+			return fa
+		}
+	}
+	return nil
+}
